@@ -32,8 +32,8 @@ def _e2e(ck):
 
 
 def run(ck):
-    return X.run_exec(ck, 6, BIAS, tiny=TINY if ck.tier == "quick" else TINY_THOROUGH, extra=_e2e)
+    return X.run_exec(ck, 6, BIAS, tiny=TINY if ck.tier == "quick" else TINY_THOROUGH, extra=_e2e, shown=True)
 
 
 def replay(ck, path):
-    return X.replay_exec(ck, 6, path)
+    return X.replay_exec(ck, 6, path, shown=True)
